@@ -42,6 +42,13 @@ func TestC04_Algebra(t *testing.T) {
 		if c == rv {
 			t.Fatalf("C04 commitment equals reveal value")
 		}
+		// a reveal value of an algorithm that is not supported has no commitment
+		for _, code := range []uint{17, 20, 22, 0} {
+			foreign := b64(refMultihashBytes(code, make([]byte, 32)))
+			if d, err := commitment.GetCommitmentFromRevealValue(foreign); err == nil {
+				t.Fatalf("C04 GetCommitmentFromRevealValue(%q: multihash code %d, not supported) = %q without an error", foreign, code, d)
+			}
+		}
 		// a key differing in exactly one member has another commitment and reveal value
 		j2 := *j
 		how := rapid.SampledFrom([]string{"nonce", "x", "y", "crv", "kty", "nonce-added-or-removed"}).Draw(t, "differs")
